@@ -37,7 +37,7 @@ def gates(c, tier):
         out.append(f"only {c.get('distinct-interleaving-signatures', 0)} distinct interleaving signatures")
     for k in ("delivery-ends-mid-header", "delivery-ends-mid-body", "pipelining-depth>=5", "termination:unbind", "termination:notice",
               "quiescent-with-ops-in-progress", "quiescent-points", "probe-agreements", "noise-call-refused", "sasl-in-progress-round", "bind-failure",
-              "final-bind-response-with-sasl-creds"):
+              "final-bind-response-with-sasl-creds", "scripted-long-conversations"):
         if c.get(k, 0) == 0:
             out.append(f"never observed {k}")
     return out
@@ -365,7 +365,69 @@ def run_sim(seed_parts, steps_n, want_term):
     return sim
 
 
+def scripted(kind, size, seed):
+    """Long regular conversations through the same simulator: a SASL negotiation of `size` in-progress rounds; `size`
+    searches open at once, answered newest first; `size` StartTLS-named extended operations one after the other."""
+    from vf.common import rng_for
+
+    sim = Sim(rng_for("c11scripted", kind, size, seed))
+
+    def flush():
+        sim.move("c", 10**9)
+        sim.deliver("s", len(sim.c2s))
+        sim.move("s", 10**9)
+        sim.deliver("c", len(sim.s2c))
+
+    if kind == "sasl-rounds":
+        for k in range(size + 1):
+            sim.api("c", ("bind_sasl", "GSS-SPNEGO", "", b"token%d" % k, None))
+            flush()
+            if sim.vio:
+                return sim
+            mid = max(sim.s.model.ip)
+            sim.api("s", ("bind_response", mid, b"srv%d" % k, 14 if k < size else 0, None, None, None))
+            flush()
+            if sim.vio:
+                return sim
+        sim.api("c", ("search", "dc=after-bind", 2, 0, 0, 0, False, None, None, None))
+        flush()
+    elif kind == "open-searches":
+        for k in range(size):
+            sim.api("c", ("search", "dc=s%d" % k, 2, 0, 0, 0, False, None, ("cn",), None))
+            if k % 50 == 49:
+                flush()
+        flush()
+        for mid in sorted(sim.s.model.ip, reverse=True):
+            if sim.vio:
+                return sim
+            sim.api("s", ("entry", mid, "cn=e", (), None))
+            sim.api("s", ("done", mid, 0, None, None, None))
+        flush()
+    elif kind == "starttls-again":
+        for k in range(size):
+            sim.api("c", ("extended", "1.3.6.1.4.1.1466.20037", None, None))
+            flush()
+            if sim.vio:
+                return sim
+            sim.api("s", ("extended_response", max(sim.s.model.ip), "1.3.6.1.4.1.1466.20037", None, 0, None, None, None))
+            flush()
+    if not sim.vio:
+        sim.quiesce()
+    return sim
+
+
 def run_shard(ctx: Ctx, acc: Acc):
+    combos = [("sasl-rounds", 3), ("sasl-rounds", 17), ("sasl-rounds", 40), ("open-searches", 33), ("open-searches", 257), ("open-searches", 600), ("starttls-again", 3), ("starttls-again", 20)]
+    for ci, (kind, size) in enumerate(combos):
+        if ci % ctx.nshards != ctx.shard:
+            continue
+        sim = scripted(kind, size, ctx.seed)
+        acc.case()
+        acc.count("scripted-long-conversations")
+        acc.nontrivial("scripted", kind, size)
+        acc.count("trace-events", len(sim.c.trace) + len(sim.s.trace))
+        for key, what in sim.vio[:2]:
+            acc.violation(key, what + f" [scripted conversation: {kind} x {size}]", {"scripted": [kind, size, ctx.seed]})
     n = ctx.scale(12_000, 400_000)
     sigs = set()
     for i in range(n):
@@ -392,5 +454,7 @@ def run_shard(ctx: Ctx, acc: Acc):
 
 
 def replay(w):
+    if w.get("scripted"):
+        return scripted(*w["scripted"]).vio[:2]
     sim = run_sim(tuple(w["seed_parts"]), w["steps_n"], w.get("want_term"))
     return sim.vio
